@@ -2,8 +2,8 @@
 
 Histories over an environment name -> Pipeline: copy, cloudpickle round-trip, join / |, update_renames, update_scope and
 its removal (every form of inputs / outputs / exclude, dotted scopes; dotted and nested-dict calling conventions), nest_funcs /
-NestedPipeFunc, simplified_pipeline, split_disconnected, add_mapspec_axis, and in-place mutations (update_defaults, update_bound,
-update_renames, update_scope, drop, add, replace) of the new or the old object of a rewrite, after which BOTH are observed again.
+NestedPipeFunc, simplified_pipeline, split_disconnected, add_mapspec_axis, update_renames with update_from / overwrite (rename
+histories on functions with bound values), and in-place mutations (update_defaults, update_bound, update_renames, update_scope, drop, add, replace) of the new or the old object of a rewrite, after which BOTH are observed again.
 After every operation BOTH the new and the old object are evaluated for every retained output (pipeline(...) for call
 pipelines, map for MapSpec pipelines): the property clauses are judged on the implementation alone (new == old up to the
 stated renaming; old unchanged), and every value and a structural summary are compared with `PF.Rw`
@@ -21,7 +21,7 @@ import mapgen
 import pipegen
 
 PID = "C10"
-PROPS = ["PfModel.Props.C10", "PfModel.Props.C10Axis", "PfModel.Props.C10Total", "PfModel.Props.C10Map", "PfModel.Props.C10Ops"]
+PROPS = ["PfModel.Props.C10", "PfModel.Props.C10Axis", "PfModel.Props.C10Total", "PfModel.Props.C10Map", "PfModel.Props.C10Ops", "PfModel.Props.C10Ren", "PfModel.Props.C10AxisPrior"]
 DRIVER = "C10"
 RULE = ("an environment with a pipegen DAG (1-5 term-building functions: tuple outputs, shared parameters, defaults, bound values, renames) or a "
         "well-formed mapgen MapSpec pipeline (1-3 functions), optionally a second pipeline to join; a history of 1-3 rewrites drawn by weight "
@@ -32,6 +32,9 @@ RULE = ("an environment with a pipegen DAG (1-5 term-building functions: tuple o
         "(rewrite, mutation, side) pair first) and both objects are observed again; 30 % of the joinable second pipelines share a root default with the "
         "first, half of them with a different value (join must refuse); defaults given in the signature or explicitly; after every op all outputs of the "
         "new and the old object are evaluated; refusals of both sides are compared by exception class where that class is a fact of the code; "
+        "every 5th case is a rename history on functions with bound values (update_renames with update_from in {current, original} and overwrite in {False, True}, "
+        "0-3 keys, new names fresh / the original / a name the same call frees (hand-overs, cycles a->b, b->a), on a copy, in place and on one function; "
+        "update_bound and update_scope in between), observed and compared with the model after every step; "
         "a separate malformed stream (unused rename keys, capturing renames, unknown outputs, dropped "
         "consumed outputs, drop/replace of an unknown output, add of a duplicate output) only demands refusal-or-consistency and an unchanged original; non-trivial = at least one rewrite other than "
         "copy/pickle was performed on a pipeline with >= 2 functions; distinct by (environment, ops)")
@@ -40,6 +43,8 @@ ASSUMPTIONS = ["inspect.signature, networkx (connected components, predecessor o
                "for MapSpec pipelines the model's terms record the current output name in a pick; they are relabelled with the harness's own name tracking before comparison",
                "a MapSpec array name takes one scope (`scope.name`): a dotted scope on a name that a MapSpec mentions is refused by the implementation (ValueError) and by the model, and add_mapspec_axis is not proposed under a nested scope",
                "the order of the input arrays inside a MapSpec string is not compared",
+               "the renaming an update_renames(update_from, overwrite) call performed is read off position by position from `parameters` / `output_name` before and after; when it is not ONE injective renaming of the pipeline the result is compared with the model only",
+               "an in-place operation that raises is not required to leave its object unchanged (counted as failed-in-place:*)",
                "only root arguments are supplied as keywords (the rewritten pipeline is not required to accept former intermediates)"]
 
 
@@ -121,11 +126,16 @@ def propose(rng, runner, k, allow_mutation):
     dst = f"p{len(names) + k}x"
     dotted = any("." in n for n in outs + roots)
     if ent.kind == "map":
-        table = [("copy", 1), ("pickle", 1), ("rename", 2.5), ("scope", 1.2), ("scope_sel", 2), ("unscope", 1.5 if dotted else 0.2), ("split", 1),
+        table = [("copy", 1), ("pickle", 1), ("rename", 2.5), ("rename_x", 1.5), ("scope", 1.2), ("scope_sel", 2), ("unscope", 1.5 if dotted else 0.2), ("split", 1),
                  ("add_axis", 3.5 if any(ent.tags.get(r, r) in ent.inputs for r in roots) and not any(n.count(".") > 1 for n in outs + roots) else 0), ("mutate", 0.7 if allow_mutation else 0)]
     else:
-        joinable = [n for n in names if n != src and runner.env[n].kind == "call" and not (set(runner.env[n].p.all_output_names) & set(outs))]
-        table = [("copy", 1), ("pickle", 1), ("rename", 2.5), ("scope", 1.2), ("scope_sel", 3), ("unscope", 1.5 if dotted else 0.2),
+        # not joinable: a shared output name; a shared wrapped function (a pipeline and its own descendant: the map model tells functions
+        # apart by name); outputs of each feeding the other (a cycle, which the model's `join` does not look for)
+        fnames = {f.__name__ for f in p.functions}
+        joinable = [n for n in names if n != src and runner.env[n].kind == "call" and not (set(runner.env[n].p.all_output_names) & set(outs))
+                    and not (fnames & {f.__name__ for f in runner.env[n].p.functions})
+                    and not (set(runner.roots(runner.env[n].p)) & set(outs) and set(roots) & set(runner.env[n].p.all_output_names))]
+        table = [("copy", 1), ("pickle", 1), ("rename", 2.5), ("rename_x", 2.5), ("scope", 1.2), ("scope_sel", 3), ("unscope", 1.5 if dotted else 0.2),
                  ("nest", 3.5 if len(p.functions) >= 2 else 0), ("simplify", 3 if len(p.functions) >= 2 else 0), ("split", 1.5),
                  ("join", 2.5 if joinable else 0), ("mutate", 1.5 if allow_mutation else 0),
                  # add_mapspec_axis on a pipeline without MapSpecs: the fragment of C10_add_axis (any DAG, tuple outputs, defaults, bound)
@@ -142,6 +152,11 @@ def propose(rng, runner, k, allow_mutation):
             pool = pool + [a for f in p.functions for a in f.parameters]
         chosen = rng.sample(sorted(set(pool)), min(len(set(pool)), rng.choice([1, 1, 2])))
         return {"op": "rename", "src": src, "dst": dst, "map": [[n, f"{n}_R{k}"] for n in chosen]}
+    if kind == "rename_x":
+        form = rename_form(rng, p, f"{k}", uniform_only=ent.kind == "map")
+        if form is None:
+            return {"op": "copy", "src": src, "dst": dst}
+        return dict({"op": "rename_x", "src": src, "dst": dst}, **form)
     if kind == "scope":
         return {"op": "scope", "src": src, "dst": dst, "scope": rng.choice(["S", "T", "sc"])}
     if kind == "unscope":
@@ -190,8 +205,126 @@ def propose(rng, runner, k, allow_mutation):
             op["malformed"] = not (consumed <= set(op["out"]))
         return op
     if kind == "mutate":
+        if rng.random() < 0.3:
+            mx = propose_rename_mutation(rng, runner, src, f"{k}s")
+            if mx is not None:
+                return mx
         return propose_mutation(rng, runner, src, f"{k}s") or {"op": "copy", "src": src, "dst": dst}
     raise AssertionError(kind)
+
+
+def rename_form(rng, p, uid, uniform_only=False, funcs=None):
+    """The arguments of one `update_renames` call: keys in terms of the current or the original names, overwrite or not, 0-3 keys;
+    new names are fresh, the key's own original name, a name this very call frees (the name of a parameter that the overwrite sends
+    home, or the current name of another key: cycles a->b, b->a), or an earlier name.  Calls that would make two names of one function
+    (or two outputs of the pipeline) equal are avoided (captures are outside the property); `uniform_only`: the call must be ONE injective
+    renaming of the whole pipeline.  `funcs`: restrict to these functions (a function-level call)."""
+    fs = list(funcs if funcs is not None else p.functions)
+    pairs = [pr for f in fs for pr in R.fn_pairs(f)]
+    if not pairs:
+        return None
+    for _attempt in range(8):
+        from_original = rng.random() < 0.4
+        overwrite = rng.random() < 0.5
+        keys_pool = sorted({(o if from_original else c) for c, o in pairs})
+        r = rng.random()
+        n = 0 if (overwrite and r < 0.25) else rng.choice([1, 1, 2, 2, 3])
+        keys = rng.sample(keys_pool, min(n, len(keys_pool)))
+        cur_of = {}
+        for c, o in pairs:
+            cur_of.setdefault(o if from_original else c, []).append((c, o))
+        m = {}
+        freed = sorted({c for c, o in pairs if c != o and overwrite and (o if from_original else c) not in keys} |
+                       {c for k_ in keys for c, _ in cur_of[k_]})
+        for k_ in keys:
+            c0, o0 = cur_of[k_][0]
+            r = rng.random()
+            if r < 0.35:
+                new = f"{k_.replace('.', '_')}_X{uid}"
+            elif r < 0.5:
+                new = o0                                  # back to (or staying at) its original name
+            elif r < 0.85 and freed:
+                new = rng.choice(freed)                   # a name this call frees: swaps, cycles, hand-overs
+            else:
+                new = rng.choice(sorted({c for c, _ in pairs} | {o for _, o in pairs}))
+            if "." in new and any("." in x and x.count(".") > 1 for x in [new]):
+                continue
+            m[k_] = new
+        # prediction (names only): no two names of one function equal, no output produced twice
+        pred = [R.predict_names(f, m, from_original, overwrite) for f in p.functions] if funcs is None else \
+               [R.predict_names(f, m, from_original, overwrite) if any(f is g for g in fs) else {c: c for c, _ in R.fn_pairs(f)} for f in p.functions]
+        ok = True
+        outs_new = []
+        rel = set()
+        for f, pm in zip(p.functions, pred):
+            names_new = [pm[c] for c, _ in R.fn_pairs(f)]
+            ok = ok and len(set(names_new)) == len(names_new)
+            outs_new += [pm[c] for c in R.at_least_tuple(f.output_name)]
+            rel |= set(pm.items())
+        ok = ok and len(set(outs_new)) == len(outs_new)
+        if ok and uniform_only:
+            functional, inj = R.uniform(rel, None)
+            ok = functional and inj
+        if ok and (m or overwrite):
+            return {"map": [[k_, v] for k_, v in m.items()], "from_original": from_original, "overwrite": overwrite}
+    return None
+
+
+def propose_rename_mutation(rng, runner, target, uid):
+    """`update_renames(..., update_from, overwrite)` in place: on the pipeline, or on ONE of its functions."""
+    ent = runner.env[target]
+    p = ent.p
+    if ent.kind == "call" and rng.random() < 0.35:
+        f = rng.choice(list(p.functions))
+        form = rename_form(rng, p, uid, funcs=[f])
+        if form is None:
+            return None
+        return dict({"op": "mut_frename", "target": target, "out": R.at_least_tuple(f.output_name)[0]}, **form)
+    form = rename_form(rng, p, uid, uniform_only=ent.kind == "map")
+    return None if form is None else dict({"op": "mut_rename_x", "target": target}, **form)
+
+
+def gen_rename_case(rng, k_case):
+    """Rename histories on functions with bound values: rename -> bind -> rename with overwrite / update_from, update_scope on top,
+    cycles in one call; new objects and in-place calls; everything is observed after every step."""
+    desc = pipegen.gen_dag(rng, max_funcs=rng.choice([1, 2, 2, 3]), p_tuple=0.25, p_bound=0.55, p_default=0.3,
+                           p_rename=rng.choice([0.0, 0.1, 0.3]), p_nullary=0.0)
+    env = [["p0", {"kind": "call", "desc": desc, "explicit_defaults": rng.random() < 0.5}]]
+    runner = R.Runner(env)
+    ops = []
+    for k in range(rng.choice([2, 3, 3, 4])):
+        names = list(runner.env)
+        src = names[-1]
+        ent = runner.env[src]
+        p = ent.p
+        try:
+            r = rng.random()
+            if r < 0.55:
+                form = rename_form(rng, p, f"{k}")
+                op = None if form is None else dict({"op": "rename_x", "src": src, "dst": f"p{len(names)}x"}, **form)
+            elif r < 0.7:
+                op = propose_rename_mutation(rng, runner, src, f"{k}")
+            elif r < 0.82:
+                f = rng.choice(list(p.functions))
+                free = [a for a in f.parameters if a not in f.bound and a not in f.defaults]
+                op = None if not free else {"op": "set_bound", "target": src, "out": R.at_least_tuple(f.output_name)[0],
+                                            "map": [[rng.choice(free), {"s": f"newbound:{k}"}]]}
+            elif r < 0.92:
+                op = dict({"op": "scope_sel", "src": src, "dst": f"p{len(names)}x"},
+                          **scope_form(rng, p, runner.roots(p), sorted(p.all_output_names)))
+            else:
+                op = {"op": "rename", "src": src, "dst": f"p{len(names)}x",
+                      "map": [[n, f"{n.replace('.', '_')}_R{k}"] for n in rng.sample(sorted(R.used_names(p)), 1)]}
+        except Exception as e:  # noqa: BLE001
+            runner.inconsistent(e, ops)
+            break
+        if op is None:
+            continue
+        ops.append(op)
+        runner.apply(op)
+        if runner.halted:
+            break
+    return {"env": env, "ops": ops}, runner
 
 
 def scope_form(rng, p, roots, outs):
@@ -223,7 +356,7 @@ def scope_form(rng, p, roots, outs):
 
 def live_func_desc(ent, f, name):
     """A fresh term-building function with the current parameters, outputs, defaults, bound values and MapSpec of `f`."""
-    params = [[a, a if "." not in a else f"a{j}"] for j, a in enumerate(f.parameters)]
+    params = [[a, a if "." not in a else f"b{j}"] for j, a in enumerate(f.parameters)]
     outs = list(R.at_least_tuple(f.output_name))
     fd = {"name": name, "params": params, "outputs": outs,
           "defaults": sorted([[a, R.terms.enc(v)] for a, v in f.defaults.items() if a not in f.bound], key=lambda kv: kv[0]),
@@ -277,7 +410,7 @@ def propose_mutation(rng, runner, target, uid, extra=None):
         elif kind == "mut_add":
             pool = sorted(set(outs + roots))
             chosen = rng.sample(pool, min(len(pool), rng.randint(1, 2)))
-            fd = {"name": f"h{uid}", "params": [[a, a if "." not in a and rng.random() < 0.7 else f"a{j}"] for j, a in enumerate(chosen)],
+            fd = {"name": f"h{uid}", "params": [[a, a if "." not in a and rng.random() < 0.7 else f"b{j}"] for j, a in enumerate(chosen)],
                   "outputs": [f"z{uid}"] if rng.random() < 0.8 else [f"z{uid}a", f"z{uid}b"], "defaults": [], "bound": []}
             if ent.kind == "call" and rng.random() < 0.4:
                 fd["params"].append([f"n{uid}", f"n{uid}"])
@@ -303,7 +436,14 @@ def propose_malformed(rng, runner, k):
     ent = runner.env[src]
     outs = sorted(ent.p.all_output_names)
     dst = f"m{k}"
-    c = rng.choice(["unused-rename", "unknown-nest", "unknown-split", "unknown-simplify", "capture", "unknown-drop", "unknown-replace", "dup-add"])
+    c = rng.choice(["unused-rename", "unknown-nest", "unknown-split", "unknown-simplify", "capture", "unknown-drop", "unknown-replace", "dup-add",
+                    "unused-rename-x", "unused-rename-x-inplace"])
+    if c == "unused-rename-x":
+        # a key nobody takes, in terms of the current or the original names, with or without overwrite: refused; the source stays as it was
+        return {"op": "rename_x", "src": src, "dst": dst, "map": [["nosuchname", "x"]], "from_original": rng.random() < 0.5, "overwrite": rng.random() < 0.5}
+    if c == "unused-rename-x-inplace":
+        # in place the refusal comes AFTER every function was updated (with overwrite: reset) - counted as `failed-in-place`, outside the property
+        return {"op": "mut_rename_x", "target": src, "map": [["nosuchname", "x"]], "from_original": rng.random() < 0.5, "overwrite": rng.random() < 0.5}
     if c == "unknown-drop":
         return {"op": "mut_drop", "target": src, "out": "nosuchoutput"}
     if c == "unknown-replace":
@@ -412,6 +552,22 @@ def MAP2():
 
 
 CORPUS: list = [
+    # seeded change C10-s1-A: a function that already has a bound value is copied, then update_bound on the copy / on the original
+    {"env": call_env(F("f0", ["r0", "r1", "r2"], ["o0"], bound=[["r1", {"s": "bound:r1:f0"}]]), F("f1", ["o0", "r3"], ["o1"])),
+     "ops": [{"op": "copy", "src": "p0", "dst": "p1"},
+             {"op": "set_bound", "target": "p1", "out": "o0", "map": [["r2", {"s": "newbound"}]], "pair": "p0", "after": "copy", "which": "new"},
+             {"op": "split", "src": "p0", "dst": "p2", "out": "o1"},
+             {"op": "set_bound", "target": "p0", "out": "o0", "map": [["r0", {"s": "newbound2"}]], "pair": "p1", "after": "copy", "which": "old"}]},
+    # seeded change C10-s2-A: a bound parameter that was renamed earlier; an overwrite drops the rename (2nd op), hands the freed name to another
+    # parameter in the same call (3rd); a cycle a<->beta in one call, in place; update_scope on top; a reset of the scoped pipeline in place
+    {"env": call_env(F("f", ["a", "b"], ["c"], bound=[["b", {"s": "bound:b"}]]), F("g", ["c", "e"], ["d"], defaults=[["e", {"s": "dflt:e"}]])),
+     "ops": [{"op": "rename_x", "src": "p0", "dst": "p1", "map": [["b", "beta"]], "from_original": False, "overwrite": False},
+             {"op": "rename_x", "src": "p1", "dst": "p2", "map": [], "from_original": False, "overwrite": True},
+             {"op": "rename_x", "src": "p1", "dst": "p3", "map": [["a", "beta"]], "from_original": True, "overwrite": True},
+             {"op": "mut_rename_x", "target": "p1", "map": [["a", "beta"], ["beta", "a"]], "from_original": False, "overwrite": False},
+             {"op": "scope_sel", "src": "p1", "dst": "p4", "scope": "S", "inputs": "*", "outputs": "*", "exclude": None},
+             {"op": "mut_rename_x", "target": "p4", "map": [], "from_original": False, "overwrite": True},
+             {"op": "mut_frename", "target": "p3", "out": "d", "map": [["c", "c"], ["e", "eps"]], "from_original": True, "overwrite": True}]},
     # DF-23: simplified_pipeline next to a tuple-output function
     {"env": call_env(F("f0", [], ["o0"]), F("f1", ["r1"], ["o1"]), F("f2", ["o1", "r1"], ["o2a", "o2b"]), F("f3", [], ["o3"]), F("f4", ["o3", "o1"], ["o4"])),
      "ops": [{"op": "simplify", "src": "p0", "dst": "p1", "out": "o2a", "conservative": False},
@@ -510,7 +666,7 @@ def run(ctx):
         ctx.count("corpus")
     for k in range(ctx.n(640, 12000)):
         try:
-            case, runner = gen_case(rng, k)
+            case, runner = gen_rename_case(rng, k) if k % 5 == 4 else gen_case(rng, k)
         except Exception as e:  # noqa: BLE001   the generator builds valid pipelines only
             ctx.count(f"generator-exc:{exc_enum(e)}")
             raise
